@@ -1,18 +1,39 @@
 #!/usr/bin/env python3
-"""Resolve a merge conflict in known_findings.json by taking the union of both sides (by id)."""
+"""Resolve a merge conflict in known_findings.json by a three-way merge per finding id.
+
+For every id: unchanged on one side w.r.t. the merge base -> take the other side (including a
+deletion); changed on both sides -> take the merged-in side. `fixed` and `closed_ids` are unions;
+an id in `closed_ids` is never open."""
 import json, subprocess
-def side(ref):
+
+
+def load(ref):
     try:
-        return json.loads(subprocess.check_output(["git", "show", f"{ref}:known_findings.json"], text=True))
-    except Exception:
+        return json.loads(subprocess.check_output(["git", "show", f"{ref}:known_findings.json"], text=True,
+                                                  stderr=subprocess.DEVNULL))
+    except Exception:  # noqa
         return {}
-ours, theirs = side("HEAD"), side("MERGE_HEAD")
-# same id on both sides: the merged-in branch is the newer edit of that entry
-newer = {f["id"]: f for f in theirs.get("findings", [])}
-out, seen = [], set()
-for f in ours.get("findings", []) + theirs.get("findings", []):
-    if f["id"] not in seen:
-        seen.add(f["id"]); out.append(newer.get(f["id"], f))
+
+
+base_ref = subprocess.check_output(["git", "merge-base", "HEAD", "MERGE_HEAD"], text=True).strip()
+base, ours, theirs = load(base_ref), load("HEAD"), load("MERGE_HEAD")
+B = {f["id"]: f for f in base.get("findings", [])}
+O = {f["id"]: f for f in ours.get("findings", [])}
+T = {f["id"]: f for f in theirs.get("findings", [])}
+order = list(dict.fromkeys([f["id"] for f in ours.get("findings", [])] + [f["id"] for f in theirs.get("findings", [])]))
+out = []
+for i in order:
+    b, o, t = B.get(i), O.get(i), T.get(i)
+    if o == t:
+        pick = o
+    elif t == b:
+        pick = o          # only we touched it (or deleted it)
+    elif o == b:
+        pick = t          # only they touched it (or deleted it)
+    else:
+        pick = t if t is not None else o
+    if pick is not None:
+        out.append(pick)
 fixed = list(dict.fromkeys(ours.get("fixed", []) + theirs.get("fixed", [])))
 closed = list(dict.fromkeys(ours.get("closed_ids", []) + theirs.get("closed_ids", [])))
 out = [f for f in out if f["id"] not in closed]
